@@ -163,6 +163,7 @@ type ContractSet struct {
 	PkgStates []*PkgStateSpec
 	Sweeps []SweepEntry
 	Rxps   []*RxpSpec
+	RxpWithins []*RxpWithinSpec
 	LoadErrors []string
 	Seconds []*Contract // second contracts of a key (one of the pair has to be scoped)
 	Scoped map[string]*Contract // `only PROPS` contracts, consulted before Funcs when the property matches
@@ -268,6 +269,31 @@ func (cs *ContractSet) LoadFile(file string) error {
 			}
 			curFrame = &FrameSpec{Key: key, File: where}
 			cs.Frames = append(cs.Frames, curFrame)
+			cur = nil
+			continue
+		}
+		if word == "rxpwithin" {
+			// rxpwithin NAME props C15 kind KIND within: W
+			k := strings.Index(rest, "within:")
+			if k < 0 {
+				return fmt.Errorf("%s: rxpwithin needs 'within:'", where)
+			}
+			f := strings.Fields(rest[:k])
+			sp := &RxpWithinSpec{Within: strings.TrimSpace(rest[k+len("within:"):]), File: where, Pkg: pkg}
+			mode := ""
+			for i, w := range f {
+				switch {
+				case i == 0:
+					sp.Name = w
+				case w == "props" || w == "kind":
+					mode = w
+				case mode == "props":
+					sp.Props = append(sp.Props, w)
+				case mode == "kind":
+					sp.Kind = w
+				}
+			}
+			cs.RxpWithins = append(cs.RxpWithins, sp)
 			cur = nil
 			continue
 		}
